@@ -38,19 +38,23 @@ class FakeFile:
     def __exit__(self, *exc):
         if self.fs.crashed:
             return False
-        self.fs.op("close", self.path)
+        i = self.fs.op("close", self.path)
+        self.fs.to_os(self.path)  # closing flushes Python's buffer to the OS
         self.closed = True
+        self.fs.after(i)
         return False
 
     def flush(self):
-        self.fs.op("flush", self.path)
+        i = self.fs.op("flush", self.path)
+        self.fs.to_os(self.path)
+        self.fs.after(i)
 
     def fileno(self):
         return self
 
     def write(self, chunk):
         self.fs.op("write", self.path)
-        self.fs.files[self.path] = [chunk, False]
+        self.fs.rec(self.path)[0] = chunk
 
 
 class FS(Env):
@@ -81,6 +85,19 @@ class FS(Env):
         self.add(json.dump, self.dump, None)
         self.add(json.load, self.load, None)
 
+    # -- file records: [latest content (this process' view), durable?, OS content, disk content]
+    def rec(self, path):
+        r = self.files[path]
+        if len(r) == 2:
+            r.extend([r[0], r[0] if r[1] else None])
+        return r
+
+    def to_os(self, path):
+        if path in self.files:
+            r = self.rec(path)
+            r[2] = r[0]
+            r[1] = r[3] is not None and r[3] == r[2]
+
     # -- fault / crash injection ------------------------------------------------------------
     def op(self, name, path):
         i = self.nops
@@ -101,7 +118,7 @@ class FS(Env):
         path, mode = a[0], (a[1] if len(a) > 1 else k.get("mode", "r"))
         i = self.op("open", path)
         if "w" in mode:
-            self.files[path] = [("EMPTY",), False]
+            self.files[path] = [("EMPTY",), False, ("EMPTY",), None]
         elif path not in self.files:
             raise prog(FileNotFoundError(path))
         self.after(i)
@@ -110,7 +127,9 @@ class FS(Env):
     def fsync(self, a, k):
         fh = a[0]
         i = self.op("fsync", fh.path)
-        self.files[fh.path][1] = True
+        r = self.rec(fh.path)
+        r[3] = r[2]  # what the OS has is now on disk (unflushed Python buffers are not)
+        r[1] = r[0] == r[2]
         self.after(i)
 
     def rename(self, a, k):
@@ -138,14 +157,16 @@ class FS(Env):
         obj, fh = a[0], a[1]
         if self.dump_fault:
             self.dump_fault = False
-            self.files[fh.path] = [("PARTIAL", None), False]
+            r = self.rec(fh.path)
+            r[0], r[1] = ("PARTIAL", None), False
             raise prog(RuntimeError("dictionary changed size during iteration"))
         state = self.snapshot(obj)
         i = self.op("write", fh.path)
-        self.files[fh.path] = [("PARTIAL", state), False]
+        r = self.rec(fh.path)
+        r[0], r[1] = ("PARTIAL", state), False  # in Python's buffer until flush()/close()
         self.after(i)
         i = self.op("write", fh.path)
-        self.files[fh.path] = [("GOOD", state), False]
+        r[0], r[1] = ("GOOD", state), False
         self.after(i)
 
     def load(self, a, k):
@@ -166,12 +187,20 @@ class FS(Env):
     # -- crash semantics -----------------------------------------------------------------------
     def after_crash(self, lose_unsynced):
         """What a fresh process finds on disk."""
-        for path, (content, durable) in list(self.files.items()):
-            if not durable and lose_unsynced and content[0] in ("GOOD", "PARTIAL"):
-                kind = self.w.pick(["PARTIAL", "EMPTY"], f"lost({path})")
-                self.files[path] = [(kind, content[1]) if kind == "PARTIAL" else ("EMPTY",), True]
-            else:
-                self.files[path] = [content, True]
+        for path in list(self.files):
+            buf, durable, os_c, disk = self.rec(path)
+            # what Python had not flushed dies with the process; what the OS had not synced may
+            # be lost with the machine
+            seen = os_c
+            if lose_unsynced and disk != os_c:
+                if disk is not None:
+                    seen = disk
+                elif os_c[0] in ("GOOD", "PARTIAL"):
+                    kind = self.w.pick(["PARTIAL", "EMPTY"], f"lost({path})")
+                    seen = (kind, os_c[1]) if kind == "PARTIAL" else ("EMPTY",)
+                else:
+                    seen = os_c
+            self.files[path] = [seen, True, seen, seen]
         self.crashed = False
         self.crash_at = None
         self.fault_at = None
